@@ -457,3 +457,7 @@ def run(facts, rep, tier):
     rep.rule("C07-R6", "Single-line containers: no break inline (printed as a newline) is ever produced by the reader, so a heading's text stays on the heading's line.")
     rule_r6(facts, rep)
     c01.rule_r12(facts, rep, rid="C07-R3e")
+    rep.rule("C07-R7", "= C01-R14: headings keep their text - the parser extensions enabled are exactly the audited ones (heading attributes `{..}`, smart punctuation etc. would take "
+             "characters out of a heading's text).")
+    from . import reader_opts
+    reader_opts.rule_reader_options(facts, rep, "C07-R7")
